@@ -1,1 +1,417 @@
-fn main() { eprintln!("placeholder"); std::process::exit(2); }
+//! corruptsim — C23 "Decoders of stored bytes reject corruption without crashing".
+//!
+//! `corruptsim check C23 [--tier quick|thorough] [--seed N] [--runs N]`
+//! `corruptsim replay <file>` · `run1 <profile> <seed> <run> [tier]` · `survey <profile> <n> [seed] [tier]`
+//! `corruptsim selfcheck determinism <profile> <n> [seed]`
+//! profiles: `mix@C23` (default: 65 % whole-database runs, 35 % single-object runs), `db@C23`, `dec@C23`.
+
+mod dbgen;
+mod decoders;
+mod engine;
+mod faults;
+mod guard;
+
+use engine::CorruptSim;
+use simcore::driver::{self, CheckSpec, Engine};
+use simcore::pool::{self, JobStatus, PoolCfg};
+use simcore::{Tier, Violation};
+use std::collections::{BTreeMap, BTreeSet};
+use std::time::Duration;
+
+const QUICK_RUNS: u64 = 6000;
+const THOROUGH_RUNS: u64 = 60000;
+
+fn arg_value(args: &[String], flag: &str) -> Option<String> {
+    args.iter().position(|a| a == flag).and_then(|i| args.get(i + 1).cloned())
+}
+
+fn env_u64(k: &str) -> Option<u64> {
+    std::env::var(k).ok().and_then(|v| v.parse().ok())
+}
+
+fn workers() -> usize {
+    env_u64("VSIM_WORKERS").map(|v| v as usize).unwrap_or_else(|| std::thread::available_parallelism().map(|n| n.get()).unwrap_or(8).min(16))
+}
+
+fn cmd_check(args: &[String]) -> i32 {
+    let id = match args.first() {
+        Some(i) => i.clone(),
+        None => {
+            eprintln!("usage: corruptsim check C23 [--tier quick|thorough] [--seed N] [--runs N] [--profile mix|db|dec]");
+            return 2;
+        }
+    };
+    if id != "C23" {
+        eprintln!("unknown property {} (corruptsim decides C23)", id);
+        return 2;
+    }
+    let tier = Tier::parse(&arg_value(args, "--tier").or_else(|| std::env::var("VERIF_TIER").ok()).unwrap_or_else(|| "quick".into()));
+    let seed = arg_value(args, "--seed").and_then(|s| s.parse().ok()).or_else(|| env_u64("VERIF_SEED")).unwrap_or(1);
+    let runs = arg_value(args, "--runs")
+        .and_then(|s| s.parse().ok())
+        .or_else(|| env_u64("VSIM_RUNS"))
+        .unwrap_or(if tier == Tier::Thorough { THOROUGH_RUNS } else { QUICK_RUNS });
+    let part = arg_value(args, "--profile").unwrap_or_else(|| "mix".into());
+    let spec = CheckSpec {
+        property: "C23".into(),
+        profile: format!("{}@C23", part),
+        tier,
+        seed,
+        runs,
+        workers: workers(),
+        run_timeout: Duration::from_secs(if tier == Tier::Thorough { 60 } else { 30 }),
+        batch_budget: Duration::from_secs(if tier == Tier::Thorough { 780 } else { 85 }),
+        level: "exploration".into(),
+        also_owns: vec![],
+        min_budget_runs: if tier == Tier::Thorough { 500 } else { 250 },
+        min_budget_wall: Duration::from_secs(if tier == Tier::Thorough { 60 } else { 25 }),
+        max_minimise: if tier == Tier::Thorough { 12 } else { 4 },
+    };
+    driver::run_check(&CorruptSim, &spec)
+}
+
+fn cmd_replay(args: &[String]) -> i32 {
+    match args.first() {
+        Some(p) => driver::replay(&CorruptSim, std::path::Path::new(p)),
+        None => {
+            eprintln!("usage: corruptsim replay <file>");
+            2
+        }
+    }
+}
+
+fn cmd_run1(args: &[String]) -> i32 {
+    if args.len() < 3 {
+        eprintln!("usage: corruptsim run1 <profile> <seed> <run> [tier]");
+        return 2;
+    }
+    let profile = args[0].clone();
+    let seed: u64 = args[1].parse().unwrap_or(1);
+    let run: u64 = args[2].parse().unwrap_or(0);
+    let tier = Tier::parse(args.get(3).map(|s| s.as_str()).unwrap_or("quick"));
+    let base = pool::default_scratch_base();
+    let cfg = PoolCfg { workers: 1, timeout: Duration::from_secs(120), scratch: base.join("run1"), deadline: None };
+    let res = pool::run_jobs(&cfg, &[run], |j| CorruptSim.run_seeded(&profile, seed, j, tier));
+    pool::cleanup(&base);
+    for (_, st) in res {
+        match st {
+            JobStatus::Done(o) => {
+                println!("{}", serde_json::to_string_pretty(&o.sample).unwrap_or_default());
+                println!("counters: {:?}", o.counters);
+                println!("events_hash={:016x} nontrivial={} harness_error={:?}", o.events_hash, o.nontrivial, o.harness_error);
+                for v in &o.violations {
+                    println!("VIOL {} :: {}", v.sig_string(), v.detail);
+                }
+            }
+            other => println!("{:?}", other),
+        }
+    }
+    0
+}
+
+/// `gencase <profile> <seed> <run> [tier]`: prints the explicit case of a seeded run.
+fn cmd_gencase(args: &[String]) -> i32 {
+    if args.len() < 3 {
+        eprintln!("usage: corruptsim gencase <profile> <seed> <run> [tier]");
+        return 2;
+    }
+    let profile = args[0].clone();
+    let seed: u64 = args[1].parse().unwrap_or(1);
+    let run: u64 = args[2].parse().unwrap_or(0);
+    let tier = Tier::parse(args.get(3).map(|s| s.as_str()).unwrap_or("quick"));
+    let base = pool::default_scratch_base();
+    let cfg = PoolCfg { workers: 1, timeout: Duration::from_secs(120), scratch: base.join("gen"), deadline: None };
+    let res = pool::run_jobs(&cfg, &[run], |j| engine::explicit_case_of_seed(&profile, seed, j, tier));
+    pool::cleanup(&base);
+    match res.into_iter().next() {
+        Some((_, JobStatus::Done(o))) => {
+            println!("{}", serde_json::to_string_pretty(&o.sample).unwrap_or_default());
+            0
+        }
+        other => {
+            eprintln!("{:?}", other);
+            2
+        }
+    }
+}
+
+/// `runcase <file>`: runs a raw explicit case (the `case` object of a replay file, or a whole replay file).
+fn cmd_runcase(args: &[String]) -> i32 {
+    let doc: serde_json::Value = match args.first().and_then(|p| std::fs::read(p).ok()).and_then(|b| serde_json::from_slice(&b).ok()) {
+        Some(d) => d,
+        None => {
+            eprintln!("usage: corruptsim runcase <file>");
+            return 2;
+        }
+    };
+    let case = if doc.get("case").is_some() { doc["case"].clone() } else { doc };
+    let base = pool::default_scratch_base();
+    let cfg = PoolCfg { workers: 1, timeout: Duration::from_secs(120), scratch: base.join("runcase"), deadline: None };
+    let res = pool::run_jobs(&cfg, &[0], |_| driver::exec_case_inline(&CorruptSim, &case));
+    pool::cleanup(&base);
+    for (_, st) in res {
+        match st {
+            JobStatus::Done(o) => {
+                println!("{}", serde_json::to_string_pretty(&o.sample).unwrap_or_default());
+                println!("counters: {:?}", o.counters);
+                println!("events_hash={:016x} nontrivial={} harness_error={:?}", o.events_hash, o.nontrivial, o.harness_error);
+                for v in &o.violations {
+                    println!("VIOL {} :: {}", v.sig_string(), v.detail);
+                }
+            }
+            other => println!("{:?}", other),
+        }
+    }
+    0
+}
+
+fn cmd_selfcheck(args: &[String]) -> i32 {
+    if args.len() < 3 || args[0] != "determinism" {
+        eprintln!("usage: corruptsim selfcheck determinism <profile> <n> [seed]");
+        return 2;
+    }
+    let profile = args[1].clone();
+    let n: u64 = args[2].parse().unwrap_or(200);
+    let seed: u64 = args.get(3).and_then(|s| s.parse().ok()).unwrap_or(1);
+    let base = pool::default_scratch_base();
+    let jobs: Vec<u64> = (0..n).collect();
+    let mut hashes: Vec<Vec<(u64, String)>> = vec![];
+    for (round, w) in [(0, 4usize), (1, 16usize)] {
+        let cfg = PoolCfg { workers: w, timeout: Duration::from_secs(120), scratch: base.join(format!("det{}", round)), deadline: None };
+        if round == 1 {
+            std::env::set_var("VSIM_PAD", "x".repeat(777));
+        }
+        let res = pool::run_jobs(&cfg, &jobs, |j| CorruptSim.run_seeded(&profile, seed, j, Tier::Quick));
+        hashes.push(
+            res.into_iter()
+                .map(|(j, st)| match st {
+                    JobStatus::Done(o) => {
+                        let sigs: BTreeSet<String> = o.violations.iter().map(|v| v.sig_string()).collect();
+                        (j, format!("{:016x}/{}v/{:016x}/{:?}", o.events_hash, o.violations.len(), simcore::rng::fnv1a(format!("{:?}", sigs).as_bytes()), o.harness_error))
+                    }
+                    JobStatus::Crashed { status, .. } => (j, format!("crashed {}", status)),
+                    JobStatus::TimedOut { .. } => (j, "timeout".to_string()),
+                })
+                .collect(),
+        );
+    }
+    pool::cleanup(&base);
+    let mut bad = 0;
+    for (a, b) in hashes[0].iter().zip(hashes[1].iter()) {
+        if a != b {
+            println!("DIVERGED run {}: {} vs {}", a.0, a.1, b.1);
+            bad += 1;
+        }
+    }
+    println!("determinism: {} seed pairs, {} diverged", n, bad);
+    if bad > 0 {
+        1
+    } else {
+        0
+    }
+}
+
+struct SiteStat {
+    runs: u64,
+    phases: BTreeMap<String, u64>,
+    kinds: BTreeMap<String, u64>,
+    roles: BTreeMap<String, u64>,
+    msg: String,
+    /// smallest case seen (by serialized length) and its run
+    best: Option<(usize, u64, Violation)>,
+}
+
+fn case_size(v: &Violation) -> usize {
+    // fewer faults first, then shorter text
+    let nf = v.case["faults"].as_array().map(|a| a.len()).or_else(|| v.case["items"][0]["faults"].as_array().map(|a| a.len())).unwrap_or(9);
+    nf * 10_000_000 + v.case.to_string().len()
+}
+
+/// Site-preserving greedy minimisation (the case carries `focus.site`, so `run_case` only
+/// reports that site).
+fn minimise_site(v: &Violation, base: &std::path::Path, budget: usize) -> (Violation, usize) {
+    let mut cur = v.clone();
+    let mut execs = 0usize;
+    let w = workers();
+    'outer: loop {
+        if execs >= budget {
+            break;
+        }
+        let cands = CorruptSim.shrink(&cur.case);
+        if cands.is_empty() {
+            break;
+        }
+        for chunk in cands.chunks(w * 2) {
+            if execs >= budget {
+                break 'outer;
+            }
+            let cfg = PoolCfg { workers: w, timeout: Duration::from_secs(60), scratch: base.join("min"), deadline: None };
+            let jobs: Vec<u64> = (0..chunk.len() as u64).collect();
+            let res = pool::run_jobs(&cfg, &jobs, |j| CorruptSim.run_case(&chunk[j as usize]));
+            execs += chunk.len();
+            for (_, st) in res {
+                if let JobStatus::Done(o) = st {
+                    if let Some(nv) = o.violations.into_iter().find(|x| x.sig.get("site") == v.sig.get("site")) {
+                        cur = nv;
+                        continue 'outer;
+                    }
+                }
+            }
+        }
+        break;
+    }
+    (cur, execs)
+}
+
+/// `survey <profile> <n> [seed] [tier] [--min N] [--out DIR]`: histogram of panic sites over n seeded runs, each
+/// with a minimised reproducing case (written to DIR when given).
+fn cmd_survey(args: &[String]) -> i32 {
+    if args.len() < 2 {
+        eprintln!("usage: corruptsim survey <profile> <n> [seed] [tier] [--min EXECS] [--out DIR]");
+        return 2;
+    }
+    let profile = args[0].clone();
+    let n: u64 = args[1].parse().unwrap_or(1000);
+    let pos: Vec<&String> = args.iter().skip(2).take_while(|a| !a.starts_with("--")).collect();
+    let seed: u64 = pos.first().and_then(|s| s.parse().ok()).unwrap_or(1);
+    let tier = Tier::parse(pos.get(1).map(|s| s.as_str()).unwrap_or("quick"));
+    let min_budget: usize = arg_value(args, "--min").and_then(|s| s.parse().ok()).unwrap_or(120);
+    let out_dir = arg_value(args, "--out");
+    let base = pool::default_scratch_base();
+    let cfg = PoolCfg { workers: workers(), timeout: Duration::from_secs(30), scratch: base.join("survey"), deadline: None };
+    let jobs: Vec<u64> = (0..n).collect();
+    let t0 = std::time::Instant::now();
+    let res = pool::run_jobs(&cfg, &jobs, |j| CorruptSim.run_seeded(&profile, seed, j, tier));
+    let wall = t0.elapsed().as_secs_f64();
+    let mut sites: BTreeMap<String, SiteStat> = BTreeMap::new();
+    let mut other: BTreeMap<String, (u64, u64)> = BTreeMap::new();
+    let mut counters: BTreeMap<String, u64> = BTreeMap::new();
+    let mut clean = 0u64;
+    for (j, st) in res {
+        match st {
+            JobStatus::Done(o) => {
+                for (k, v) in &o.counters {
+                    *counters.entry(k.clone()).or_insert(0) += v;
+                }
+                if let Some(e) = &o.harness_error {
+                    other.entry(format!("HARNESS {}", e)).or_insert((0, j)).0 += 1;
+                }
+                if o.violations.is_empty() {
+                    clean += 1;
+                }
+                let mut seen = BTreeSet::new();
+                for v in o.violations {
+                    let site = v.sig.get("site").cloned().unwrap_or_default();
+                    let e = sites.entry(site.clone()).or_insert(SiteStat { runs: 0, phases: BTreeMap::new(), kinds: BTreeMap::new(), roles: BTreeMap::new(), msg: String::new(), best: None });
+                    if seen.insert(site) {
+                        e.runs += 1;
+                    }
+                    *e.phases.entry(v.sig.get("phase").cloned().unwrap_or_default()).or_insert(0) += 1;
+                    *e.kinds.entry(v.sig.get("faults").cloned().unwrap_or_default()).or_insert(0) += 1;
+                    *e.roles.entry(v.sig.get("role").cloned().unwrap_or_default()).or_insert(0) += 1;
+                    if e.msg.is_empty() {
+                        e.msg = v.detail.chars().take(300).collect();
+                    }
+                    let sz = case_size(&v);
+                    if e.best.as_ref().map(|b| sz < b.0).unwrap_or(true) {
+                        e.best = Some((sz, j, v));
+                    }
+                }
+            }
+            JobStatus::Crashed { status, stderr_tail } => {
+                let tail: String = stderr_tail.lines().rev().take(3).collect::<Vec<_>>().into_iter().rev().collect::<Vec<_>>().join(" | ");
+                other.entry(format!("process-died {} :: {}", status, tail.chars().take(300).collect::<String>())).or_insert((0, j)).0 += 1;
+            }
+            JobStatus::TimedOut { stderr_tail } => {
+                let tail: String = stderr_tail.lines().rev().take(2).collect::<Vec<_>>().into_iter().rev().collect::<Vec<_>>().join(" | ");
+                other.entry(format!("hang :: {}", tail.chars().take(300).collect::<String>())).or_insert((0, j)).0 += 1;
+            }
+        }
+    }
+    println!("{} runs, {} without violation, {} distinct panic sites, {:.1}s ({:.0} runs/s)", n, clean, sites.len(), wall, n as f64 / wall.max(0.001));
+    println!("-- counters");
+    for (k, v) in &counters {
+        println!("  {:40} {}", k, v);
+    }
+    println!("-- process-died / hang / harness");
+    let mut ov: Vec<_> = other.into_iter().collect();
+    ov.sort_by_key(|(_, (c, _))| std::cmp::Reverse(*c));
+    for (k, (c, j)) in ov {
+        println!("{:6}x first run {:6} {}", c, j, k);
+    }
+    println!("-- panic sites (site | runs | phases | fault kinds | roles)");
+    let mut sv: Vec<(String, SiteStat)> = sites.into_iter().collect();
+    sv.sort_by_key(|(_, s)| std::cmp::Reverse(s.runs));
+    if let Some(d) = &out_dir {
+        let _ = std::fs::create_dir_all(d);
+    }
+    for (site, s) in sv {
+        let top = |m: &BTreeMap<String, u64>| {
+            let mut v: Vec<_> = m.iter().collect();
+            v.sort_by_key(|(_, c)| std::cmp::Reverse(**c));
+            v.into_iter().take(5).map(|(k, c)| format!("{}:{}", k, c)).collect::<Vec<_>>().join(" ")
+        };
+        println!("{:6}x {}\n        phases: {}\n        faults: {}\n        roles: {}\n        {}", s.runs, site, top(&s.phases), top(&s.kinds), top(&s.roles), s.msg);
+        if let Some((_, j, v)) = s.best {
+            let (mv, execs) = if min_budget > 0 { minimise_site(&v, &base, min_budget) } else { (v, 0) };
+            let summary = summarise_case(&mv.case);
+            println!("        minimal (from run {}, {} minimisation runs): {}", j, execs, summary);
+            if let Some(d) = &out_dir {
+                let path = driver::write_replay(std::path::Path::new(d), "corruptsim", &mv);
+                println!("        replay file: {}", path.display());
+            }
+        }
+    }
+    pool::cleanup(&base);
+    0
+}
+
+fn summarise_case(case: &serde_json::Value) -> String {
+    match case["part"].as_str().unwrap_or("") {
+        "db" => {
+            let stmts = case["build"]["stmts"].as_array().map(|a| a.len()).unwrap_or(0);
+            let steps: Vec<String> = case["steps"].as_array().map(|a| a.iter().map(|s| s["op"].as_str().unwrap_or("").chars().take(60).collect()).collect()).unwrap_or_default();
+            format!(
+                "build {} stmts end={} ; faults {} ; steps {:?}",
+                stmts,
+                case["build"]["end"].as_str().unwrap_or(""),
+                case["faults"],
+                steps
+            )
+        }
+        "dec" => {
+            let it = &case["items"][0];
+            let base = it["base"].as_str().unwrap_or("");
+            format!("decoder {} base[{}B]={}{} ctx={} faults {}", it["decoder"].as_str().unwrap_or(""), base.len() / 2, &base[..base.len().min(96)], if base.len() > 96 { ".." } else { "" }, it["ctx"].to_string().chars().take(120).collect::<String>(), it["faults"])
+        }
+        _ => case.to_string().chars().take(200).collect(),
+    }
+}
+
+fn main() {
+    simdisk::plug_hash_order();
+    // error values must not pay for backtrace capture
+    std::env::remove_var("RUST_BACKTRACE");
+    std::env::remove_var("RUST_LIB_BACKTRACE");
+    let args: Vec<String> = std::env::args().collect();
+    simcore::noaslr::ensure();
+    simdisk::plug_hash_order();
+    let code = match args.get(1).map(|s| s.as_str()) {
+        Some("check") => cmd_check(&args[2..]),
+        Some("replay") => cmd_replay(&args[2..]),
+        Some("run1") => cmd_run1(&args[2..]),
+        Some("selfcheck") => cmd_selfcheck(&args[2..]),
+        Some("survey") => cmd_survey(&args[2..]),
+        Some("gencase") => cmd_gencase(&args[2..]),
+        Some("runcase") => cmd_runcase(&args[2..]),
+        Some("list") => {
+            println!("C23 corruptsim mix");
+            0
+        }
+        _ => {
+            eprintln!("usage: corruptsim check|replay|run1|selfcheck|survey|list ...");
+            2
+        }
+    };
+    std::process::exit(code);
+}
